@@ -153,8 +153,10 @@ pub struct Exec {
     pub cfg: Config,
     pub resp_headers: Vec<(String, Vec<u8>)>,
     pub gz: bool,
-    pub w: Option<Writer>,
+    pub w: Option<crate::drive::LeakOnUnwind<Writer>>,
     pub p: Option<Poller>,
+    /// the subject panicked: its state may be poisoned, nothing more is called or dropped
+    pub subject_panicked: bool,
     // ---- reference model ----
     pub accepted: Vec<u8>,
     pos: usize,
@@ -227,8 +229,9 @@ impl Exec {
             cfg: cfg.clone(),
             resp_headers,
             gz,
-            w,
+            w: w.map(crate::drive::LeakOnUnwind::new),
             p: Some(Poller::new(body)),
+            subject_panicked: false,
             accepted: Vec::new(),
             pos: 0,
             flushed_upto: 0,
@@ -262,12 +265,32 @@ impl Exec {
         Some(self.gzs.plain.len())
     }
 
+    /// After a subject panic: leak both halves (their destructors would panic again on the
+    /// poisoned mutex) and make every later operation of the history a no-op.
+    fn poison(&mut self) {
+        self.subject_panicked = true;
+        if let Some(w) = self.w.take() {
+            w.leak();
+        }
+        if let Some(mut p) = self.p.take() {
+            p.dead = true;
+            drop(p);
+        }
+    }
+
     pub fn sample(&mut self) {
+        let mut panicked = false;
         if let Some(p) = &self.p {
             match p.sample() {
                 Ok(s) => self.samples.push((s, self.delivered.len(), self.terminal_seen.is_some())),
-                Err(m) => self.out.push(fnd(&["C12", "C13"], "hint-panic", format!("size_hint/is_end_stream panicked: {m}"))),
+                Err(m) => {
+                    self.out.push(fnd(&["C12", "C13"], "hint-panic", format!("size_hint/is_end_stream panicked: {m}")));
+                    panicked = true;
+                }
             }
+        }
+        if panicked {
+            self.poison();
         }
     }
 
@@ -280,6 +303,7 @@ impl Exec {
             Err(p) => {
                 self.out.push(fnd(&["C08", "C09", "C11"], "write-panic", format!("write panicked: {}", crate::drive::panic_msg(p))));
                 self.writer_failed = true;
+                self.poison();
                 return;
             }
             Ok(r) => r,
@@ -332,6 +356,7 @@ impl Exec {
             Err(p) => {
                 self.out.push(fnd(&["C08", "C09", "C11"], "flush-panic", format!("flush panicked: {}", crate::drive::panic_msg(p))));
                 self.writer_failed = true;
+                self.poison();
                 return;
             }
             Ok(r) => r,
@@ -438,7 +463,8 @@ impl Exec {
             }
             Obs::Panic(m) => {
                 self.terminal_seen = Some(o.clone());
-                self.out.push(fnd(&["C08", "C09", "C11", "C13"], "poll-panic", format!("poll panicked: {m}")));
+                self.out.push(fnd(&["C08", "C09", "C11", "C12", "C13"], "poll-panic", format!("poll panicked: {m}")));
+                self.poison();
             }
         }
         Some(o)
@@ -467,6 +493,8 @@ impl Exec {
         let was_live = self.term == Term::Live && !self.writer_failed;
         if let Err(p) = catch_unwind(AssertUnwindSafe(|| w.abort(HErr::Abort(7)))) {
             self.out.push(fnd(&["C11"], "abort-panic", format!("abort panicked: {}", crate::drive::panic_msg(p))));
+            self.poison();
+            return;
         }
         self.log.push("abort".into());
         if was_live && !self.body_gone {
@@ -478,8 +506,11 @@ impl Exec {
 
     pub fn drop_writer(&mut self) {
         if let Some(w) = self.w.take() {
-            if let Err(p) = catch_unwind(AssertUnwindSafe(|| drop(w))) {
+            // drop inside catch_unwind; if the destructor panics the remains are leaked by
+            // LeakOnUnwind (dropping them again while unwinding would abort the process)
+            if let Err(p) = catch_unwind(AssertUnwindSafe(move || drop(w))) {
                 self.out.push(fnd(&["C08", "C09"], "drop-panic", format!("dropping the writer panicked: {}", crate::drive::panic_msg(p))));
+                self.subject_panicked = true;
             }
             self.log.push("drop_writer".into());
             if self.term == Term::Live && !self.writer_failed {
@@ -503,6 +534,9 @@ impl Exec {
     }
 
     pub fn apply(&mut self, op: Op) {
+        if self.subject_panicked {
+            return;
+        }
         match op {
             Op::W(n) => self.write_op(n, false),
             Op::WA(n) => self.write_op(n, true),
